@@ -48,6 +48,8 @@ class LimitDf:
             for n in range(0, nmax + 1):
                 sides = [4 + 8 * k + (k % 2) * 3 for k in range(n + 1)]
                 cand = [None, 0] + sides + [s + 2 for s in sides] + [sides[-1] + 9]
+                # off-grid limits (fs * start not an integer: the uniform shift must still be uniform)
+                cand += [sides[0] - 0.5, sides[0] + 0.43]
                 for fs in (1, 4, 500):
                     for a, b in itertools.product(range(len(cand)), repeat=2):
                         st, sp = cand[a], cand[b]
